@@ -187,14 +187,21 @@ Aged(line, W, g) ==
   /\ gs.cfg.maxAge > 0 /\ Cardinality(UntSet(W, g)) = MinOf(line, W, g) /\ UntSet(W, g) # {} /\ TntSet(W, g) = {}
   /\ \E n \in UntSet(W, g) : W.now - V(W, g)[n].created > gs.cfg.maxAge
 
-C06Applies(line, pre, g) ==
-  /\ ListedOK(line, g) /\ NoFaults(line) /\ ~Dry(pre, g) /\ ~pre.groups[g].lag /\ ~CtlLocked(pre, g)
+C06Base(line, pre, g) ==
+  /\ ListedOK(line, g) /\ ~Dry(pre, g) /\ ~pre.groups[g].lag /\ ~CtlLocked(pre, g)
   /\ InBounds(line, pre, g) /\ Cardinality(UntSet(pre, g)) >= MinOf(line, pre, g) /\ UntSet(pre, g) # {}
   /\ \A n \in UntSet(pre, g) : V(pre, g)[n].cpu > 0 /\ V(pre, g)[n].mem > 0
   /\ line.ret = "nil" /\ ~line.panic /\ ~line.hang
+C06Applies(line, pre, g) == C06Base(line, pre, g) /\ NoFaults(line)
+\* scans whose only injected failures are reads / writes of individual listed nodes: "exactly min(rate, untainted - min_nodes)" is still
+\* owed whenever that many nodes can be tainted at all (a failed write on one candidate does not excuse tainting fewer)
+NodeWriteFaultsOnly(line, pre) ==
+  /\ ~NoFaults(line)
+  /\ \A i \in 1..Len(line.faults) : line.faults[i].op \in {"get", "update"} /\ \E h \in Groups(pre) : line.faults[i].t \in Listed(pre, h)
+C06AppliesF(line, pre, g) == C06Base(line, pre, g) /\ NodeWriteFaultsOnly(line, pre) /\ ~line.crash
 
 C06v(line, pre) ==
-  UNION {IF ~C06Applies(line, pre, g) THEN {} ELSE
+  UNION {IF ~C06Applies(line, pre, g) /\ ~C06AppliesF(line, pre, g) THEN {} ELSE
          LET gs == pre.groups[g]
              B == Bands(pre, g)
              nT == Cardinality(TaintedOK(line, g))
@@ -202,13 +209,22 @@ C06v(line, pre) ==
              nS == Len(SetDesireds(line, g))
              room == Cardinality(UntSet(pre, g)) - MinOf(line, pre, g)
              trig == Starved(line, pre, g) \/ Aged(line, pre, g)
-             okFast == nT = Min2(gs.cfg.fast, room) /\ nU = 0 /\ nS = 0
-             okSlow == nT = Min2(gs.cfg.slow, room) /\ nU = 0 /\ nS = 0
+             faulty == ~NoFaults(line)
+             avail == Cardinality(UntSet(pre, g) \ {line.faults[i].t : i \in 1..Len(line.faults)})
+             Quota(rate) == IF faulty THEN Min2(Min2(rate, room), avail) ELSE Min2(rate, room)
+             okFast == nT = Quota(gs.cfg.fast) /\ nU = 0 /\ nS = 0
+             okSlow == nT = Quota(gs.cfg.slow) /\ nU = 0 /\ nS = 0
              okNone == nT = 0 /\ nU = 0 /\ nS = 0
-             okUp == nT = 0
+             \* "above the scale-up threshold it only adds capacity": no taint, and the direction is up: at least one node untainted or
+             \* requested, unless the cloud target already sits on min(max_nodes, cloud maximum) (fleet requests are not SetDesiredCapacity calls)
+             sd == SetDesireds(line, g)
+             bound == Min2(MaxOf(line, pre, g), CloudMax(line, pre, g))
+             brought == nU + (IF Len(sd) > 0 /\ sd[1].ok THEN sd[1].a - sd[1].b ELSE 0)
+             clamped == (Len(sd) > 0 /\ sd[1].a = bound) \/ (Len(sd) = 0 /\ bound - gs.asg.desired <= 0)
+             okUp == nT = 0 /\ (faulty \/ gs.cfg.fleet \/ brought >= 1 \/ clamped)
          IN IF trig THEN (IF nT # 0 THEN {<<"C06", "trigger-tainted", g, "">>} ELSE {})
             ELSE IF \/ ("fast" \in B /\ okFast) \/ ("slow" \in B /\ okSlow) \/ ("none" \in B /\ okNone) \/ ("up" \in B /\ okUp) THEN {}
-            ELSE {<<"C06", "band-" \o (CHOOSE b \in B : TRUE), g, "">>}
+            ELSE {<<"C06", "band-" \o (CHOOSE b \in B : TRUE) \o (IF faulty THEN "-under-node-write-failures" ELSE ""), g, "">>}
         : g \in Groups(pre)}
 C06f(line, pre) ==
   UNION {IF ~C06Applies(line, pre, g) THEN {} ELSE
@@ -216,6 +232,7 @@ C06f(line, pre) ==
          \cup (IF Cardinality(Bands(pre, g)) > 1 THEN {"C06:on-threshold"} ELSE {})
          \cup (IF Starved(line, pre, g) THEN {"C06:starve"} ELSE {}) \cup (IF Aged(line, pre, g) THEN {"C06:max-age"} ELSE {})
         : g \in Groups(pre)}
+  \cup UNION {IF C06AppliesF(line, pre, g) /\ Bands(pre, g) \cap {"fast", "slow"} # {} THEN {"C06:taint-band-with-failing-node-write"} ELSE {} : g \in Groups(pre)}
 
 -----------------------------------------------------------------------------
 \* C05 (controller level) — enough, and at most one more than needed, unless clamped
@@ -262,9 +279,10 @@ C05f(line, pre) == UNION {(IF C05Applies(line, pre, g) THEN {"C05:scale-up"} ELS
 
 -----------------------------------------------------------------------------
 \* C07 — tainted nodes are reused (newest first) before capacity is bought
-C07Applies(line, pre, exp, g) == ListedOK(line, g) /\ ~line.crash /\ ~Dry(pre, g) /\ ~pre.groups[g].lag /\ exp.res[g].branch \in {"up", "below_min"}
+C07Base(line, pre, exp, g) == ListedOK(line, g) /\ ~line.crash /\ ~Dry(pre, g) /\ exp.res[g].branch \in {"up", "below_min"}
+C07Applies(line, pre, exp, g) == C07Base(line, pre, exp, g) /\ ~pre.groups[g].lag
 C07v(line, pre, post, exp) ==
-  UNION {IF ~C07Applies(line, pre, exp, g) THEN {} ELSE
+  UNION {IF ~C07Base(line, pre, exp, g) THEN {} ELSE
          LET N == IF exp.res[g].branch = "below_min" THEN MinOf(line, pre, g) - Cardinality(UntSet(pre, g)) ELSE post.groups[g].ctl.delta
              created == [n \in Listed(pre, g) |-> V(pre, g)[n].created]
              cs == CallsOf(line, g)
@@ -274,16 +292,21 @@ C07v(line, pre, post, exp) ==
              fails == {att[i] : i \in 1..Len(att)} \ U
              sd == SetDesireds(line, g)
              bound == Min2(MaxOf(line, pre, g), CloudMax(line, pre, g))
-             rest == N - Cardinality(U)
-         IN (IF TntSet(pre, g) # {} /\ ~SelectOKSeq(created, -1, TntSet(pre, g), N, fails, att) THEN {<<"C07", "not-newest-first", g, "">>} ELSE {})
-            \cup (IF TntSet(pre, g) = {} /\ U # {} THEN {<<"C07", "untainted-an-untainted-node", g, "">>} ELSE {})
+             lag == pre.groups[g].lag
+             \* behind a stale view a listed "tainted" node may already be clean in the API (re-read, nothing to write: it counts as reused)
+             \* or gone from it (the re-read answers not-found: it cannot count as reused)
+             clean == IF lag THEN {gets[i].n : i \in {j \in 1..Len(gets) : gets[j].ok /\ gets[j].n \in DOMAIN pre.groups[g].api /\ ~pre.groups[g].api[gets[j].n].taint.has}} ELSE {}
+             rest == N - Cardinality(U \cup clean)
+             sfx == IF lag THEN "-behind-a-stale-view" ELSE ""
+         IN (IF ~lag /\ TntSet(pre, g) # {} /\ ~SelectOKSeq(created, -1, TntSet(pre, g), N, fails, att) THEN {<<"C07", "not-newest-first", g, "">>} ELSE {})
+            \cup (IF ~lag /\ TntSet(pre, g) = {} /\ U # {} THEN {<<"C07", "untainted-an-untainted-node", g, "">>} ELSE {})
             \* a scan that needs more nodes reuses its tainted nodes: it does not remove one of them (force-tainted nodes excepted)
-            \cup {<<"C07", "removed-a-tainted-node-in-a-scale-up-scan", g, n>> : n \in (TermAttempt(line, g) \cup DelAttempt(line, g)) \cap TntSet(pre, g)}
-            \cup (IF Len(sd) > 0 /\ (TntSet(pre, g) \ U) \ fails # {} THEN {<<"C07", "bought-while-tainted-node-left", g, "">>} ELSE {})
+            \cup (IF lag THEN {} ELSE {<<"C07", "removed-a-tainted-node-in-a-scale-up-scan", g, n>> : n \in (TermAttempt(line, g) \cup DelAttempt(line, g)) \cap TntSet(pre, g)})
+            \cup (IF ~lag /\ Len(sd) > 0 /\ (TntSet(pre, g) \ U) \ fails # {} THEN {<<"C07", "bought-while-tainted-node-left", g, "">>} ELSE {})
             \cup (IF Len(sd) > 0 /\ ~pre.groups[g].cfg.fleet /\ sd[1].a - sd[1].b # Min2(rest, bound - sd[1].b)
-                    THEN {<<"C07", "request-not-remainder-on-current", g, "">>} ELSE {})
+                    THEN {<<"C07", "request-not-remainder-on-current" \o sfx, g, "">>} ELSE {})
             \cup (IF Len(sd) = 0 /\ ~pre.groups[g].cfg.fleet /\ NoFaults(line) /\ rest > 0 /\ bound - pre.groups[g].asg.desired + Cardinality(TermOK(line, g)) > 0
-                    THEN {<<"C07", "remainder-not-requested", g, "">>} ELSE {})
+                    THEN {<<"C07", "remainder-not-requested" \o sfx, g, "">>} ELSE {})
         : g \in Groups(pre)}
 C07f(line, pre, exp) ==
   UNION {IF ~C07Applies(line, pre, exp, g) THEN {} ELSE
@@ -292,6 +315,7 @@ C07f(line, pre, exp) ==
          \cup (IF TermOK(line, g) # {} /\ Len(SetDesireds(line, g)) > 0 THEN {"C07:removed-then-bought"} ELSE {})
          \cup (IF \E a, b \in TntSet(pre, g) : a # b /\ V(pre, g)[a].created = V(pre, g)[b].created THEN {"C07:ties"} ELSE {})
         : g \in Groups(pre)}
+  \cup UNION {IF C07Base(line, pre, exp, g) /\ pre.groups[g].lag /\ TntSet(pre, g) \ DOMAIN pre.groups[g].api # {} THEN {"C07:stale-view-lists-a-vanished-tainted-node"} ELSE {} : g \in Groups(pre)}
 
 -----------------------------------------------------------------------------
 \* C08 — scale-down taints the oldest first
